@@ -52,8 +52,14 @@ func (s *synchronizer) sync(_ context.Context, res Response) (Response, bool, er
 
 	s.cycle.counter++
 
-	if !res.Ack {
-		s.cycle.res.Ack = false
+	// A command is acknowledged positively when any node holds data for it, exactly as a
+	// single engine does for several channels; the merged acknowledgement is what is emitted,
+	// not the response that happened to arrive last.
+	if res.Ack {
+		s.cycle.res.Ack = true
+	}
+	if s.cycle.res.Error == nil {
+		s.cycle.res.Error = res.Error
 	}
 
 	fulfilled := s.cycle.counter == s.nodeCount
@@ -61,5 +67,5 @@ func (s *synchronizer) sync(_ context.Context, res Response) (Response, bool, er
 		s.cycle.counter = 0
 	}
 
-	return res, fulfilled, nil
+	return s.cycle.res, fulfilled, nil
 }
